@@ -1,0 +1,2 @@
+//! Facade for `common::frim` (crate-private module).
+pub use crate::common::frim::{FrimMap, IterGuard};
